@@ -388,7 +388,7 @@ Proof.
       * destruct (drain s t) as [[a b] c0] eqn:E. intros H; injection H as <- _ _. eapply IH; eauto.
       * intros H A. eapply (IH _ _ _ _ _ H). setters. unfold upd. destruct (p =? p0); auto.
     + intros H A. eapply (IH _ _ _ _ _ H). exact A.
-    + destruct (drain (set_hopen s p0 false) t) as [[a b] c0] eqn:E. intros H; injection H as <- _ _.
+    + destruct (drain (set_hsink (set_hopen s p0 false) p0 None) t) as [[a b] c0] eqn:E. intros H; injection H as <- _ _.
       intros A. eapply (IH _ _ _ _ _ E). exact A.
     + intros H. eapply IH; eauto.
     + intros H. eapply IH; eauto.
@@ -407,7 +407,7 @@ Proof.
       * destruct (drain s t) as [[a b] c0] eqn:D. intros H; injection H as <- _ _. eapply IH; eauto.
       * intros H. eapply (IH _ _ _ _ _ H).
   - intros H. eapply (IH _ _ _ _ _ H).
-  - destruct (drain (set_hopen s p0 false) t) as [[a b] c0] eqn:D. intros H; injection H as <- _ _. eapply (IH _ _ _ _ _ D).
+  - destruct (drain (set_hsink (set_hopen s p0 false) p0 None) t) as [[a b] c0] eqn:D. intros H; injection H as <- _ _. eapply (IH _ _ _ _ _ D).
   - intros H. eapply IH; eauto.
   - intros H. eapply IH; eauto.
 Qed.
